@@ -722,7 +722,10 @@ mod api {
             for t in [";)", if phonetic { "smile" } else { "hasi" }] {
                 let a = s.typ(t).unwrap(); s.finish();
                 let b = fresh.typ(t).unwrap(); fresh.finish();
-                if !same(&a, &b) { o.fail(json!({"clause": "C11 ANSI switched off on a live context: emoji are offered as in a new context", "also": "C18", "text": t, "observed": show(&a), "expected": show(&b)})); }
+                if !same(&a, &b) {
+                    o.fail(json!({"clause": "C11 ANSI switched off on a live context: emoji are offered as in a new context", "text": t, "history": s.history(), "observed": show(&a), "expected": show(&b)}));
+                    o.fail(json!({"clause": "C18 outside ANSI mode (after a switch from ANSI on a live context) every emoticon / emoji name offers its emoji", "text": t, "history": s.history(), "observed": show(&a), "expected": show(&b)}));
+                }
             }
         }
         {
